@@ -561,6 +561,16 @@ func (vc *VC) loopModSet(fr *frame, l *LoopInfo) *ModSet {
 				// effects appear at Wait
 			case ssa.CallInstruction:
 				c := x.Common()
+				if b, ok := c.Value.(*ssa.Builtin); ok && b.Name() == "append" && !(fr.fc != nil && fr.fc.Options["freshappend"] == "yes") {
+					// (contract option freshappend=yes selects the fresh-only frame for appends to slices built in the function)
+					// appends written directly in the loop body: plain havoc of the element memories at the
+					// header (the fresh-only frame axiom is reserved for callees: it made loop proofs slower)
+					ms.allocates = true
+					if st, ok := c.Args[0].Type().Underlying().(*types.Slice); ok {
+						ms.addCellsOf(st.Elem())
+					}
+					continue
+				}
 				callee := c.StaticCallee()
 				if callee != nil && strings.HasSuffix(callee.String(), "sync.WaitGroup).Wait") && fr.goMods != nil {
 					ms.union(fr.goMods)
